@@ -276,6 +276,43 @@ func exercise(valueOf func(jsonapi.Attr, int) any, s gen.Shape, arg any, how str
 		return fmt.Sprintf("MarshalResource returned invalid JSON: %q", out)
 	}
 
+	// What a caller does with a built type is its own business: the type
+	// built next still carries exactly what the tags declare.
+	if p := oracle.Try(func() {
+		for k := range typ.Attrs {
+			delete(typ.Attrs, k)
+			break
+		}
+
+		for k := range typ.Rels {
+			delete(typ.Rels, k)
+			break
+		}
+
+		_ = typ.AddAttr(jsonapi.Attr{Name: "zz-added-later", Type: jsonapi.AttrTypeBool})
+		typ.Name += "-renamed"
+	}); p != nil {
+		return fmt.Sprintf("editing the built type (%s): %s", how, p)
+	}
+
+	var again jsonapi.Type
+
+	if p := oracle.Try(func() { again, err = jsonapi.BuildType(arg) }); p != nil {
+		return fmt.Sprintf("second BuildType(%s): %s", how, p)
+	}
+
+	if err != nil {
+		return fmt.Sprintf("second BuildType(%s) fails: %v", how, err)
+	}
+
+	if m := sameDefs(name, attrs, rels, again, "BuildType after the first built type was edited"); m != "" {
+		return m
+	}
+
+	if m := sameDefs(name, attrs, rels, jsonapi.Type{Name: name, Attrs: w.Attrs(), Rels: w.Rels()}, "Wrapper.Attrs/Rels after the built type was edited"); m != "" {
+		return m
+	}
+
 	return ""
 }
 
